@@ -39,7 +39,7 @@ META = dict(
                  "GL ring order is not observable from the (symmetric) weights"],
     need=["rg_geometry", "klength_tables", "unique_klengths", "lm_layout", "sphere_volumes",
           "ps_partition", "ps_volumes", "ps_klengths", "ps_cache_sequences", "dof_volumes",
-          "identity_is", "pickle_roundtrips", "unequal_pairs", "eq_hash_pairs"],
+          "identity_is", "pickle_roundtrips", "unequal_pairs", "eq_hash_pairs", "cross_process_pickles"],
     quick=dict(cases=1600, workers=4, budget_s=60),
     thorough=dict(cases=40000, workers=16, budget_s=600),
     design_ref="DESIGN.md §5 C08",
@@ -709,8 +709,72 @@ def case_ident(ck, rng):
         mdd = ift.MultiDomain.make({k: tups[assign[k]] for k in keys[1:]})
         chk(ck, mdd is not md and mdd != md, "identity:dropped-key-equal",
             "MultiDomain with a dropped key is identical/equal")
+    if rng.integers(0, 5) == 0:
+        cross_process_pickle(ck, ift, rng, tds, routes, tups, md, keys, assign)
     ck.note(dict(fam="IDENT", tuples=tds, routes=routes, keys=keys, assign=assign, hist=hist),
             nontrivial=nkeys >= 2, klass="IDENT")
+
+
+def cross_process_pickle(ck, ift, rng, tds, routes, tups, md, keys, assign):
+    """pickle in this interpreter (after hashing), unpickle in a fresh interpreter with a different
+    PYTHONHASHSEED (resume, MPI and multiprocessing do exactly this) and require identity there"""
+    import json
+    import os
+    import pickle
+    import subprocess
+    import tempfile
+    for t in tups:
+        hash(t)
+        for d in t:
+            hash(d)
+    hash(md)
+    fld = ift.full(tups[0], 2.)
+    wd = tempfile.mkdtemp(prefix="c08_", dir=os.environ.get("VERIF_WORKDIR", "/tmp"))
+    try:
+        pth = os.path.join(wd, "doms.pkl")
+        with open(pth, "wb") as f:
+            pickle.dump(dict(tups=tups, md=md, field=fld), f, protocol=int(rng.integers(2, 6)))
+        order = ("load_first", "build_first")[int(rng.integers(0, 2))]
+        spec = dict(pickle=pth, tuples=tds, routes=routes, keys=keys, assign=assign, order=order)
+        sp = os.path.join(wd, "spec.json")
+        with open(sp, "w") as f:
+            json.dump(spec, f)
+        env = dict(os.environ)
+        mine = int(os.environ.get("PYTHONHASHSEED", "0") or 0)
+        env["PYTHONHASHSEED"] = str((mine + 1 + int(rng.integers(0, 10 ** 6))) % 4294967295)
+        root = os.path.dirname(os.path.dirname(os.path.abspath(__file__)))
+        try:
+            p = subprocess.run(["/venv/bin/python", "-B", "-m", "vf.xproc_pickle", sp], cwd=root, env=env,
+                               capture_output=True, text=True, timeout=300)
+        except subprocess.TimeoutExpired:
+            ck.hit("xproc_pickle_timeouts")
+            return
+        res = None
+        for line in p.stdout.splitlines()[::-1]:
+            if line.startswith("VFRESULT "):
+                res = json.loads(line[9:])
+                break
+        if res is None:
+            ck.violation("identity:cross-process-pickle:child-failed",
+                         f"unpickling domains in a fresh interpreter failed: {(p.stderr or '')[-300:]}")
+            return
+        ck.hit("cross_process_pickles")
+        for c in res["checks"]:
+            ck.hit("identity_is")
+            if not c["same"]:
+                ck.violation(f"identity:cross-process-pickle:{c['what'].split('[')[0]}:not-identical",
+                             f"{c['what']} unpickled in another interpreter ({order}) is not the object "
+                             f"DomainTuple/MultiDomain.make returns there (eq={c['eq']}, hash_eq={c['hash_eq']})")
+            elif not (c["eq"] and c["hash_eq"] and c["sub_eq"]):
+                ck.violation(f"identity:cross-process-pickle:{c['what'].split('[')[0]}:eq-hash",
+                             f"{c['what']} unpickled in another interpreter is unequal / hashes differently")
+        if res["field_add"] != "ok":
+            ck.violation("identity:cross-process-pickle:field-arithmetic",
+                         f"a field unpickled in another interpreter cannot be combined with a fresh field on "
+                         f"the same domain description: {res['field_add']}")
+    finally:
+        import shutil
+        shutil.rmtree(wd, ignore_errors=True)
 
 
 def case(ck, i):
